@@ -135,7 +135,8 @@ PROPS["C16"]["go_tests"] = ["TestVerifStore", "TestVerifCountersConcurrent", "Te
 PROPS["C16"]["impl_only_traces"] = ["counters"]
 PROPS["C16"]["rule"] = STORE_RULE + "; plus a concurrent run: groups of 8 goroutines released together on the same absent key of a loading cache (leaders and joiners), mixed with plain Gets, then quiescent comparison of Stats/Len/EstimatedSize with the harness's own tally; plus the real striped counter (1, 2 or 4 stripes) stepped one atomic operation at a time by 2..5 goroutines (hook H9) and compared with the model after every step"
 
-PROPS["C08"]["go_tests"] = ["TestVerifRing", "TestVerifRingStore"]
+PROPS["C08"]["go_tests"] = ["TestVerifRing", "TestVerifRingStore", "TestVerifRingLateBatch"]
+PROPS["C08"]["impl_only_traces"] = list(PROPS["C08"].get("impl_only_traces", [])) + ["ringlate"]
 PROPS["C08"]["rule"] += "; plus the same stepping through real Store.Get calls on one stripe, with schedules that park 12..17 readers between their tail CAS and the publication of their slot before another reader takes over the drain"
 
 PROPS["C20"]["timeout"] = {"quick": 300, "thorough": 1200}
@@ -339,8 +340,8 @@ PROPS["C03"]["go_tests"] = ["TestVerifExpiry", "TestVerifStore"]
 PROPS["C03"]["project_codes"] = {"store": ["0", "5", "8"]}
 PROPS["C03"]["monitor_tags"] = ["C03"]
 
-PROPS["C03"]["go_tests"] = ["TestVerifExpiry", "TestVerifStore", "TestVerifTickerStall", "TestVerifMaintenanceSurvivesBusyLock", "TestVerifSlowSecondaryDeadline"]
-PROPS["C03"]["impl_only_traces"] = ["tickerstall", "busylock", "slowsecdeadline"]
+PROPS["C03"]["go_tests"] = ["TestVerifExpiry", "TestVerifStore", "TestVerifTickerStall", "TestVerifMaintenanceSurvivesBusyLock", "TestVerifSlowSecondaryDeadline", "TestVerifReadsSeeValueAndDeadlineTogether"]
+PROPS["C03"]["impl_only_traces"] = ["tickerstall", "busylock", "slowsecdeadline", "readatomic"]
 PROPS["C03"]["rule"] += "; plus the real ticker goroutine: the policy lock is held by the harness for 2.5 s of real time while the virtual clock jumps 40 s past a 31 s deadline, then Get must miss; maintenance must still reclaim a 1 s entry after the policy lock was busy across two wake-ups; a copy in the secondary tier whose deadline passes during a slow secondary lookup must not be served (hybrid Get and loading Get)"
 
 
